@@ -76,6 +76,22 @@ Theorem C13_reported_name_fixed_point : forall t p, real_name t (real_name t p) 
 Proof. exact real_name_idem. Qed.
 Print Assumptions C13_reported_name_fixed_point.
 
+(* the working directory: a relative name given after the process has moved to
+   [cwd] is re-spelled relative to the root (CwdModel.respell, used by the
+   model driver for `readfile` after `chdir`); the re-spelled name is still
+   relative, absolute names are untouched, and the file the model resolves it
+   to is the one named cwd/p *)
+Theorem C13_respell_relative : forall cwd p, is_abs p = false -> is_abs (respell cwd p) = false.
+Proof. exact respell_rel. Qed.
+Print Assumptions C13_respell_relative.
+Theorem C13_respell_absolute : forall cwd p, is_abs p = true -> respell cwd p = p.
+Proof. exact respell_abs. Qed.
+Print Assumptions C13_respell_absolute.
+Theorem C13_respell_names_cwd_file : forall t cwd p, is_abs p = false ->
+  real_name t (respell cwd p) = fs_resolve 8 t (squeeze (cwd ++ 47 :: p)).
+Proof. exact respell_real_name. Qed.
+Print Assumptions C13_respell_names_cwd_file.
+
 Example C13_demo :
   let pre := [LComment [] 35 (bs " x"); LKey (mkKL [] (bs "a") [] (Some 61) [] (VPlain (bs "1")) [] None);
               LCont [32] (bs "more") [] None; LBlank []] in
